@@ -737,7 +737,7 @@ def run(ctx):
                          'coarse option; per configuration 5 spectra + unit '
                          'spikes; non-trivial = at least one spectrum was '
                          'filled',
-                    time_cap=ctx.budget or (80 if q else 800))
+                    time_cap=ctx.budget or (320 if q else 1600))
     if ctx.wants('exclusive'):
         ctx.explore('exclusive', FN_EXCL, exclusive_cases(ctx.tier),
                     engine='E1',
@@ -749,4 +749,4 @@ def run(ctx):
                     rule='all operation sequences (14 setter operations) up '
                          'to length 2 (quick) / 3 (thorough) on a live '
                          'Fourier, compared with a fresh object',
-                    time_cap=ctx.budget or (40 if q else 300))
+                    time_cap=ctx.budget or (160 if q else 600))
